@@ -123,7 +123,18 @@ def writer_script(cfg, content_file="in.dat", out_file="out.zck", seg=None):
         if cc.get("cmin") is not None:
             L.append("iopt 5 %d %d" % (CHUNK_MIN, cc["cmin"]))
         L.append("companion 5 f:%s %d" % (cc["file"], cc["piece"]))
-    L.append("writeseq 0 f:%s %s" % (content_file, " ".join(str(x) for x in (seg or [1 << 30]))))
+    if cfg.get("late"):
+        # options set again AFTER the first bytes were written (in the middle of the first chunk): a setter may refuse; if it accepts,
+        # everything that follows is still bound by the properties
+        first = min(cfg["late"]["first"], cfg["late"]["n"])
+        L.append("write 0 f:%s:0:%d" % (content_file, first))
+        for o_, v_ in cfg["late"]["opts"]:
+            L.append("iopt 0 %d %d" % (o_, v_))
+        L.append("is_error 0")
+        if cfg["late"]["n"] > first:
+            L.append("writeseq 0 f:%s:%d:%d %s" % (content_file, first, cfg["late"]["n"] - first, " ".join(str(x) for x in (seg or [1 << 30]))))
+    else:
+        L.append("writeseq 0 f:%s %s" % (content_file, " ".join(str(x) for x in (seg or [1 << 30]))))
     if cfg.get("companion"):
         L.append("companion_stat")
     for _ in range(cfg.get("extra_end", 0)):
